@@ -32,12 +32,13 @@ type synStep struct {
 }
 
 type synP struct {
-	R     uint64    `json:"r"`     // trust range (0 = unlimited)
-	Store int       `json:"store"` // initial store head (tail 1)
-	Lag   int       `json:"lag"`   // network tip is Store+Lag at start
-	Steps []synStep `json:"steps"`
-	Sched uint64    `json:"sched"` // PRNG seed for yield-point delays (0 = off)
-	TPMin int       `json:"tp_min"`
+	R       uint64    `json:"r"`     // trust range (0 = unlimited)
+	Store   int       `json:"store"` // initial store head (tail 1)
+	Lag     int       `json:"lag"`   // network tip is Store+Lag at start
+	Steps   []synStep `json:"steps"`
+	Sched   uint64    `json:"sched"` // PRNG seed for yield-point delays (0 = off)
+	TPMin   int       `json:"tp_min"`
+	Metrics bool      `json:"metrics,omitempty"` // hsync.WithMetrics()
 }
 
 const synBT = time.Second
@@ -302,7 +303,11 @@ func (sw *synWorld) startSyncer(p synP) bool {
 	if tp == 0 {
 		tp = 10000 * time.Hour
 	}
-	if err := sw.newSyncer(hsync.WithBlockTime(synBT), hsync.WithTrustingPeriod(tp), hsync.WithSyncFromHeight(1)); err != nil {
+	sopts := []hsync.Option{hsync.WithBlockTime(synBT), hsync.WithTrustingPeriod(tp), hsync.WithSyncFromHeight(1)}
+	if p.Metrics {
+		sopts = append(sopts, hsync.WithMetrics())
+	}
+	if err := sw.newSyncer(sopts...); err != nil {
 		sw.c.T.Fatalf("syncer: %v", err)
 	}
 	if err := sw.start(); err != nil {
@@ -322,7 +327,7 @@ func TestC03(t *testing.T) {
 	rng := r.Rand("c03")
 	modes := []string{"ok", "ok", "error", "prefix1", "prefix5", "slow", "slow-prefix"}
 	for i := 0; i < r.N(300, 6000); i++ {
-		p := synP{R: []uint64{1, 3, 16, 0}[rng.Intn(4)], Store: 5 + rng.Intn(r.N(40, 150)), Lag: rng.Intn(r.N(60, 200)), Sched: uint64(rng.Intn(1 << 30)), TPMin: []int{0, 0, 5}[rng.Intn(3)]}
+		p := synP{R: []uint64{1, 3, 16, 0}[rng.Intn(4)], Store: 5 + rng.Intn(r.N(40, 150)), Lag: rng.Intn(r.N(60, 200)), Sched: uint64(rng.Intn(1 << 30)), TPMin: []int{0, 0, 5}[rng.Intn(3)], Metrics: i%6 == 5}
 		for j := 4 + rng.Intn(r.N(20, 55)); j > 0; j-- {
 			switch x := rng.Intn(20); {
 			case x < 9:
@@ -403,7 +408,7 @@ func TestC07(t *testing.T) {
 	rng := r.Rand("c07")
 	okModes := []string{"ok", "prefix1", "prefix5", "slow", "slow-prefix"}
 	for i := 0; i < r.N(300, 8000); i++ {
-		p := synP{R: 0, Store: 5 + rng.Intn(40), Lag: rng.Intn(r.N(150, 400)), Sched: uint64(rng.Intn(1 << 30))}
+		p := synP{R: 0, Store: 5 + rng.Intn(40), Lag: rng.Intn(r.N(150, 400)), Sched: uint64(rng.Intn(1 << 30)), Metrics: i%6 == 5}
 		p.Steps = append(p.Steps, synStep{Op: "getter", Mode: okModes[rng.Intn(len(okModes))]})
 		nerr := 0
 		for j := 3 + rng.Intn(14); j > 0; j-- {
